@@ -162,6 +162,12 @@ end solves
 section order
 variable {K S : Type}
 
+/-- **`sort_rows` is a canonical form**: it removes every trace of the order in which the entries of a row were listed
+(rows with distinct columns; from `C08b.sortRow_canonical`) -/
+theorem sort_rows_canonical {A' A : CRS K} (h : RowPermOf A' A) (hn : A.nodupb = true) :
+    sortRows A' = sortRows A :=
+  Adapters.sortRows_canonical h hn
+
 /-- **amg sorts on entry** (amg.hpp:199-205): the hierarchy built from a matrix whose rows list their entries in any
 order is the hierarchy built from `A` — for every coarsening policy, smoother and parameter set. -/
 theorem amg_setup_order_indep [Add K] [Mul K] [Zero K] [One K] (prm : Amg.Params) (pol : Amg.Policy K)
